@@ -90,6 +90,40 @@ def gen_xquat(t):
     tu.add('w_qmat', '%s& m, const %s& q' % (M3, Q), 'm = q.toMatrix33();', k='aux')
     return tu
 
+def gen_mknear(t):
+    """makeNear with nearestRotation left as a call"""
+    E = ELEM[t][0]; Eu = 'Euler<%s>' % E
+    tu = TU('c11m_' + t, header=HDR, opaque=('15nearestRotation',))
+    tu.add('w_makeNear', '%s& e, const %s& target' % (Eu, Eu), 'e.makeNear(target);', k='mknear')
+    return tu
+
+def check_mknear(rep, R, t):
+    """R11.near (makeNear): both angle vectors handed to nearestRotation are expressed in this object's order, so the order
+    argument is this object's order() - computed from the object's own bit fields, not from the target's"""
+    E, sz, lt = ELEM[t]
+    oid = 'makeNear<%s>' % E
+    S = R.get('w_makeNear')
+    if S is None:
+        rep.ob(oid, 'R11.near', UNDECIDED, R.err.get('w_makeNear', 'not analysed')[:300]); return
+    where = fn_where(S.fn)
+    calls = [c for nm, c, ln in S.calls if '15nearestRotation' in nm]
+    if len(calls) != 1:
+        rep.ob(oid, 'R11.near', VIOLATED if not calls else UNDECIDED, '%d calls of nearestRotation, expected 1' % len(calls), where); return
+    args = [a for a in calls[0].args if a.ty not in ('mem', 'ptr')]
+    if not args:
+        rep.ob(oid, 'R11.near', UNDECIDED, 'the order argument of nearestRotation was not recognised', where); return
+    order = args[-1]
+    bases = set(); st = [order]; seen = set()
+    while st:
+        x = st.pop()
+        if x.id in seen: continue
+        seen.add(x.id); st.extend(x.args)
+        if x.op == 'in': bases.add(x.attr[0])
+    ok = bases == {'a0'}
+    rep.ob(oid, 'R11.near', HOLDS if ok else VIOLATED,
+           'nearestRotation is given the order of the object whose angles are adjusted' if ok else
+           'the order handed to nearestRotation is computed from %s; both angle vectors are in this object\'s order (the target is re-ordered first), so it has to be this object\'s order(): with another middle axis the alternative solution (pi + a, pi - b, pi + c) flips the wrong angle' % (sorted(bases) or 'a constant'), where)
+
 def check_xquat(rep, R, t):
     """R11.xq: extract(Quat q) extracts from the rotation matrix of q: on every path the nine entries handed to
     extract(Matrix33) equal q.toMatrix33() as polynomials in the components of q (so a sign-canonicalised -q is fine, the
@@ -375,6 +409,9 @@ def main(rep, ws, tier):
     tuq = [gen_xquat(t) for t in types]
     an = Analysed(ws, tus + tun + tur + tuq, rep)
     for tq, t in zip(tuq, types): check_xquat(rep, an[tq], t)
+    tum_ = [gen_mknear(t) for t in types]
+    anm = Analysed(ws, tum_, rep)
+    for tm_, t in zip(tum_, types): check_mknear(rep, anm[tm_], t)
     for tn, t in zip(tun, types):
         check_near(rep, an[tn], t)
     for tr, tu, t in zip(tur, tus, types):
